@@ -584,7 +584,14 @@ func (m *Machine) terminal() {
 			fmt.Fprintf(&sb, "[%s blocked on %s at %s] ", t.Name, t.waitOn, m.threadPos(t))
 		}
 	}
-	m.violate("DEADLOCK", "", "no thread can run: "+sb.String(), nil)
+	var in []NondetRec
+	if m.freshTerritory() {
+		if r := m.S.Check(); r == smt.Sat {
+			in = m.collectInputs()
+		}
+		m.ex.ob("DEADLOCK").Reached++
+		m.violate("DEADLOCK", "", "no thread can run: "+sb.String(), in)
+	}
 	m.endWhy = "deadlock"
 }
 
